@@ -23,8 +23,12 @@
 static int vclock_on = 0;
 static struct timespec v_real, v_mono;
 
+static const long long *publish_on_read = NULL;   /* cbp: the daemon publishes this record while the call reads its first clock */
+static void cba_store(const long long *t);
+
 int clock_gettime(clockid_t clk, struct timespec *ts) {
     if (!vclock_on) return (int)syscall(SYS_clock_gettime, clk, ts);
+    if (publish_on_read) { const long long *p = publish_on_read; publish_on_read = NULL; cba_store(p); }
     if (clk == CLOCK_MONOTONIC || clk == CLOCK_MONOTONIC_COARSE || clk == CLOCK_MONOTONIC_RAW || clk == CLOCK_BOOTTIME) *ts = v_mono;
     else *ts = v_real;
     return 0;
@@ -78,17 +82,12 @@ static void cba_store(const long long *t) {
     if (pwrite(cba_fd, &cba_gen, 2, 14) != 2) abort();
 }
 
-static void run_cba(const char *line) {
-    long long t[11];
-    if (sscanf(line, "cba %lld %lld %lld %lld %lld %lld %lld %lld %lld %lld %lld", t, t + 1, t + 2, t + 3, t + 4, t + 5, t + 6, t + 7, t + 8, t + 9, t + 10) != 11) {
-        printf("bad-line\n");
-        return;
-    }
+static int cba_ensure(void) {
     if (!cba_ctx) {
         const char *dir = getenv("VERIF_SCRATCH");
         snprintf(cba_path, sizeof cba_path, "%s/cdriver-segment-%d", dir ? dir : "/dev/shm", (int)getpid());
         cba_fd = open(cba_path, O_RDWR | O_CREAT | O_TRUNC, 0644);
-        if (cba_fd < 0) { printf("cannot-create-segment\n"); return; }
+        if (cba_fd < 0) { printf("cannot-create-segment\n"); return 0; }
         unsigned char hdr[72];
         memset(hdr, 0, sizeof hdr);
         uint32_t m0 = 0x414D5A4E, m1 = 0x43420200, size = 72; uint16_t ver = 1, gen = 2;
@@ -96,8 +95,18 @@ static void run_cba(const char *line) {
         if (pwrite(cba_fd, hdr, 72, 0) != 72) abort();
         clockbound_err err; memset(&err, 0, sizeof err);
         cba_ctx = clockbound_open(cba_path, &err);
-        if (!cba_ctx) { printf("cannot-open-segment:"); print_err(&err); printf("\n"); return; }
+        if (!cba_ctx) { printf("cannot-open-segment:"); print_err(&err); printf("\n"); return 0; }
     }
+    return 1;
+}
+
+static void run_cba(const char *line) {
+    long long t[11];
+    if (sscanf(line, "cba %lld %lld %lld %lld %lld %lld %lld %lld %lld %lld %lld", t, t + 1, t + 2, t + 3, t + 4, t + 5, t + 6, t + 7, t + 8, t + 9, t + 10) != 11) {
+        printf("bad-line\n");
+        return;
+    }
+    if (!cba_ensure()) return;
     cba_store(t);
     v_real.tv_sec = t[7]; v_real.tv_nsec = t[8]; v_mono.tv_sec = t[9]; v_mono.tv_nsec = t[10];
     clockbound_now_result res; memset(&res, 0, sizeof res);
@@ -126,6 +135,30 @@ static void run_cba(const char *line) {
                 (long long)res.latest.tv_sec, (long long)res.latest.tv_nsec, (int)res.clock_status);
 }
 
+/* cbp <old record 7> <new record 7> real_s real_n mono_s mono_n : the segment holds the old record; while the
+ * call reads its first clock the daemon publishes the new one.  The call took its snapshot before it read
+ * the clocks, so it answers from the old record (as the Rust client does). */
+static void run_cbp(const char *line) {
+    static long long t[18];
+    if (sscanf(line, "cbp %lld %lld %lld %lld %lld %lld %lld %lld %lld %lld %lld %lld %lld %lld %lld %lld %lld %lld",
+               t, t + 1, t + 2, t + 3, t + 4, t + 5, t + 6, t + 7, t + 8, t + 9, t + 10, t + 11, t + 12, t + 13, t + 14, t + 15, t + 16, t + 17) != 18) {
+        printf("bad-line\n");
+        return;
+    }
+    if (!cba_ensure()) return;
+    cba_store(t);
+    v_real.tv_sec = t[14]; v_real.tv_nsec = t[15]; v_mono.tv_sec = t[16]; v_mono.tv_nsec = t[17];
+    clockbound_now_result res; memset(&res, 0, sizeof res);
+    publish_on_read = t + 7;
+    vclock_on = 1;
+    const clockbound_err *e = clockbound_now(cba_ctx, &res);
+    vclock_on = 0;
+    publish_on_read = NULL;
+    if (e) printf("err %s\n", kind_name(e->kind));
+    else printf("ok %lld %lld %lld %lld %d\n", (long long)res.earliest.tv_sec, (long long)res.earliest.tv_nsec,
+                (long long)res.latest.tv_sec, (long long)res.latest.tv_nsec, (int)res.clock_status);
+}
+
 int main(void) {
     char line[4096];
     while (fgets(line, sizeof line, stdin)) {
@@ -133,6 +166,7 @@ int main(void) {
         long long rs, rn, ms, mn;
         if (sscanf(line, "%15s", tag) != 1) continue;
         if (strcmp(tag, "cba") == 0) { run_cba(line); fflush(stdout); continue; }
+        if (strcmp(tag, "cbp") == 0) { run_cbp(line); fflush(stdout); continue; }
         if (strcmp(tag, "siz") == 0) {
             printf("now_result %zu %zu %zu %zu err %zu %zu %zu %zu status %d %d %d kinds %d %d %d %d %d\n",
                    sizeof(clockbound_now_result), offsetof(clockbound_now_result, earliest), offsetof(clockbound_now_result, latest),
